@@ -50,6 +50,10 @@ class TransitionDipoleMoment(SelfAdjointOperator, BasisManaged):
         else:
             S1 = inv
         #S1 = scipy.linalg.inv(SS)
+        # the representation in a complex basis is complex: real storage
+        # would silently drop its imaginary part
+        if numpy.iscomplexobj(SS) and not numpy.iscomplexobj(self._data):
+            self._data = self._data.astype(numpy.complex128)
         for i in range(3):
             self._data[:,:,i] = numpy.dot(S1,numpy.dot(self._data[:,:,i],SS))
         
